@@ -221,10 +221,60 @@ def model_expr(sc, impl):
             f"{L(passed)} {L([])} {L(raised)}"), paths
 
 
+def mesh_options_stream(ctx, n):
+    """the mesh options reach the file comparisons of directory mode as they reach file mode: for a pair of .vtu files that are
+    equal up to relabeling (optionally with an unconnected point on one side), `dir` and `file` give the same exit status under
+    every combination of --disable-mesh-reordering / --disable-mesh-orphan-point-removal, and the status is the expected one"""
+    from .clicommon import lattice_mesh, permute_mesh
+    import random as _random
+    rng = ctx.rng
+    for it in range(n):
+        nx, ny = rng.randint(1, 3), rng.randint(1, 2)
+        pts, cells = lattice_mesh(rng, nx, ny)
+        u = [rng.randint(-8, 8) / 4.0 for _ in pts]
+        ghost = rng.random() < 0.4
+        flags = [f for f in ("--disable-mesh-reordering", "--disable-mesh-orphan-point-removal") if rng.random() < 0.5]
+        root = os.path.join(str(ctx.workdir), f"mo{it}")
+        A, B = os.path.join(root, "A"), os.path.join(root, "B")
+        os.makedirs(A)
+        os.makedirs(B)
+        V.write_vtu(os.path.join(A, "m.vtu"), pts, cells, [("u", "Float64", 1, u)], [], V.Cfg("ascii"))
+        p2, c2, pf2, _ = permute_mesh(_random.Random(it * 7 + 1), pts, cells, [("u", "Float64", 1, u)], [])
+        identity = p2 == pts and c2 == cells
+        if ghost:
+            p2 = p2 + [[50.0, 50.0, 0.0]]
+            pf2 = [(pf2[0][0], pf2[0][1], pf2[0][2], list(pf2[0][3]) + [0.0])]
+        V.write_vtu(os.path.join(B, "m.vtu"), p2, c2, pf2, [], V.Cfg("ascii"))
+        rc = {}
+        for mode in ("file", "dir"):
+            args = ([mode, os.path.join(A, "m.vtu"), os.path.join(B, "m.vtu")] if mode == "file" else [mode, A, B]) + ["--verbosity", "0"] + flags
+            with warnings.catch_warnings():
+                warnings.simplefilter("ignore")
+                rc[mode], _, exc = run_cli(args)
+            if exc:
+                rc[mode] = f"escaped: {exc}"
+        shutil.rmtree(root, ignore_errors=True)
+        sc = {"mesh_options": {"flags": flags, "ghost_point_in_reference": ghost, "nx": nx, "ny": ny, "identity_permutation": identity}}
+        ctx.case(sc, True, sample={"scenario": sc, "exit": rc})
+        ctx.count("mesh options:" + (",".join(f[2:] for f in flags) or "none"))
+        ctx.tie("T2 dir mode = file mode under the mesh options")
+        want_zero = (identity or "--disable-mesh-reordering" not in flags) and not (ghost and flags)
+        if ghost and "--disable-mesh-orphan-point-removal" in flags or ghost and "--disable-mesh-reordering" in flags:
+            want_zero = False
+        if rc["file"] != rc["dir"]:
+            ctx.violation("E4", f"directory mode and file mode disagree under {flags or 'no mesh option'}: dir exits {rc['dir']}, "
+                                f"file exits {rc['file']}", sc)
+        elif isinstance(rc["dir"], int) and (rc["dir"] == 0) != want_zero:
+            ctx.violation("E4", f"exit status {rc['dir']} for meshes equal up to relabeling under {flags or 'no mesh option'} "
+                                f"(ghost point: {ghost})", sc)
+        ctx.traces_validated += 1
+
+
 def run(ctx):
     ctx.prove()
     n = 350 if ctx.tier == "quick" else 8000
     rng = ctx.rng
+    mesh_options_stream(ctx, 24 if ctx.tier == "quick" else 600)
     cases = [gen(rng) for _ in range(n)]
     impls = [run_impl(sc, str(ctx.workdir), i) for i, sc in enumerate(cases)]
     pairs = [model_expr(sc, im) for sc, im in zip(cases, impls)]
